@@ -1124,8 +1124,13 @@ def _decorate_new_with_invariants(new_func: CallableT) -> CallableT:
 
         # If the class of the instance defines ``__init__`` (*e.g.*, in a sub-class), the construction has not been
         # finished yet, and the invariants can not be checked here. Analogously, we must not check the invariants
-        # if ``__new__`` returned an instance of some other class.
-        if isinstance(instance, cls) and type(instance).__init__ is object.__init__:
+        # if ``__new__`` returned an instance of some other class, or if this wrapper has been called from
+        # the ``__new__`` of a sub-class (``super().__new__(cls)``) which still has to finish.
+        if (
+            isinstance(instance, cls)
+            and type(instance).__init__ is object.__init__
+            and getattr(cls, "__new__", None) is wrapper
+        ):
             for invariant in instance.__class__.__invariants__:
                 _assert_invariant(contract=invariant, instance=instance)
 
